@@ -27,7 +27,7 @@
 //! stmt : ["assign",[var...],[e...]] ["do",block] ["callstmt",call] ["compound",op,var,e]
 //!        ["function",[names...],method|null,[params...],variadic,block] ["genfor",[names],[e...],block]
 //!        ["if",[[cond,block]...],else|null] ["local",[names],[e...]] ["localt",[[name,type|null]...],[e...]]
-//!        ["localfn",name,[params],variadic,block] ["numfor",name,start,end,step|null,block]
+//!        ["localc",[names],[e...]] (Luau `const`) ["localfn",name,[params],variadic,block] ["numfor",name,start,end,step|null,block]
 //!        ["repeat",block,cond] ["while",cond,block] ["typedecl",name,type,exported]
 //!        ["functiont",[names],method|null,[[name,type|null]...],variadic,rettype|null,block]
 //! expr : ["id",name] ["num",text] ["numbits",hi,lo] ["nume",text,exp,upper] ["hex",text,upper,exp|null,expupper]
@@ -198,6 +198,9 @@ impl Builder {
                 IfStatement::new(branches, else_block).into()
             }
             "local" | "localt" => VariableAssignment::new(self.typed_ids(&v[1]), arr(&v[2]).iter().map(|x| self.expr(x)).collect()).into(),
+            "localc" => VariableAssignment::new(self.typed_ids(&v[1]), arr(&v[2]).iter().map(|x| self.expr(x)).collect())
+                .with_assignment_kind(AssignmentKind::Const)
+                .into(),
             "localfn" => FunctionAssignment::new(s(&v[1]), self.block(&v[4]), self.typed_ids(&v[2]), v[3].as_bool().unwrap_or(false)).into(),
             "numfor" => {
                 let step = if v[4].is_null() { None } else { Some(self.expr(&v[4])) };
